@@ -4,8 +4,7 @@
 (*                                                                         *)
 (* Tier 1 (meaning):  reg -- the partial map id -> description             *)
 (*                    [kind, name, size, managed] of everything handed out *)
-(*                    (and the named built-ins); handed -- every id a      *)
-(*                    registration returned, in order.                     *)
+(*                    (and the named built-ins).                           *)
 (* Tier 2 (design):   ifs/dyn/metaC/genC mirror the append-only tables of  *)
 (*                    type_traits.c: interface_types[] from slot IfAdd,    *)
 (*                    dynamic_types[], and the chunk lists (Chunk entries  *)
@@ -29,10 +28,10 @@ CONSTANTS IfBase, IfAdd, IfCap,   \* interface ids: first id, reserved built-in 
           Optional,               \* ids the statement leaves open (may or may not resolve)
           Names, Sizes, Probe     \* explored names / sizes / looked-up ids
 
-VARIABLES reg, handed,            \* Tier 1
+VARIABLES reg,                    \* Tier 1
           ifs, dyn, metaC, genC,  \* Tier 2
           obs, des
-vars == <<reg, handed, ifs, dyn, metaC, genC, obs, des>>
+vars == <<reg, ifs, dyn, metaC, genC, obs, des>>
 
 ---------------------------------------------------------------------------
 IfRange   == IfBase..(IfBase + IfCap - 1)
@@ -64,10 +63,10 @@ BadName(n) == n # "" /\ (Len(n) < 4 \/ n \in NamesIn(reg))
 ById1(id) ==
   IF id \in DOMAIN reg
   THEN [present |-> 1, size |-> reg[id].size, managed |-> reg[id].managed,
-        name |-> reg[id].name, named |-> IF reg[id].kind \in {"iface", "meta"} THEN 1 ELSE 0]
+        name |-> reg[id].name, ntype |-> IF reg[id].kind \in {"iface", "meta"} THEN id ELSE 0]
   ELSE IF id \in DOMAIN Fixed
-  THEN [present |-> 1, size |-> Fixed[id].size, managed |-> Fixed[id].managed, name |-> "", named |-> 0]
-  ELSE [present |-> 0, size |-> 0, managed |-> 0, name |-> "", named |-> 0]
+  THEN [present |-> 1, size |-> Fixed[id].size, managed |-> Fixed[id].managed, name |-> "", ntype |-> 0]
+  ELSE [present |-> 0, size |-> 0, managed |-> 0, name |-> "", ntype |-> 0]
 Open(id) == id \in Optional \/ (id \notin Registrable /\ id \notin DOMAIN Fixed)
 
 \* lookup by name: a registered name wins, then the short names
@@ -128,24 +127,24 @@ ByName2(text, len) ==
 
 \* range partition of mpt_type_traits
 ById2(id) ==
-  LET absent == [present |-> 0, size |-> 0, managed |-> 0, name |-> "", named |-> 0] IN
+  LET absent == [present |-> 0, size |-> 0, managed |-> 0, name |-> "", ntype |-> 0] IN
   IF id \in IfRange
   THEN LET s == IfSlotName(id - IfBase) IN
        IF s = <<>> \/ id - IfBase > IfPos THEN absent
-       ELSE [present |-> 1, size |-> PtrSize, managed |-> 0, name |-> s[1], named |-> 1]
+       ELSE [present |-> 1, size |-> PtrSize, managed |-> 0, name |-> s[1], ntype |-> id]
   ELSE IF id \in DynRange
   THEN IF id - DynBase >= Len(dyn) THEN absent
-       ELSE [present |-> 1, size |-> dyn[id - DynBase + 1], managed |-> 0, name |-> "", named |-> 0]
+       ELSE [present |-> 1, size |-> dyn[id - DynBase + 1], managed |-> 0, name |-> "", ntype |-> 0]
   ELSE IF id \in MetaRange
   THEN LET e == Walk(metaC, id - MetaBase) IN
        IF e = <<>> THEN absent
-       ELSE [present |-> 1, size |-> PtrSize, managed |-> 0, name |-> e[1], named |-> 1]
+       ELSE [present |-> 1, size |-> PtrSize, managed |-> 0, name |-> e[1], ntype |-> id]
   ELSE IF id \in GenRange
   THEN LET e == Walk(genC, id - GenBase) IN
        IF e = <<>> THEN absent
-       ELSE [present |-> 1, size |-> e[1].size, managed |-> e[1].managed, name |-> "", named |-> 0]
+       ELSE [present |-> 1, size |-> e[1].size, managed |-> e[1].managed, name |-> "", ntype |-> 0]
   ELSE IF id \in DOMAIN Fixed
-  THEN [present |-> 1, size |-> Fixed[id].size, managed |-> Fixed[id].managed, name |-> "", named |-> 0]
+  THEN [present |-> 1, size |-> Fixed[id].size, managed |-> Fixed[id].managed, name |-> "", ntype |-> 0]
   ELSE absent
 
 \* refinement mapping tables -> reg
@@ -162,7 +161,6 @@ Registered(a, arg, kind, d, bad, ok, id) ==
                ELSE bad \/ Free(kind) = {}
   IN
   /\ reg' = IF ok /\ id \notin DOMAIN reg THEN [i \in DOMAIN reg \cup {id} |-> IF i = id THEN d ELSE reg[i]] ELSE reg
-  /\ handed' = IF ok THEN Append(handed, id) ELSE handed
   /\ obs' = [a |-> a, arg |-> arg, legal |-> legal,
              exp |-> IF ok THEN [ret |-> "ok", val |-> <<id>>, name |-> d.name, size |-> d.size]
                      ELSE [ret |-> "refused", val |-> <<>>, name |-> "", size |-> 0]]
@@ -206,7 +204,7 @@ AddMeta(name, ok, id) ==
 
 ---------------------------------------------------------------------------
 (* lookups *)
-Keep == UNCHANGED <<reg, handed, ifs, dyn, metaC, genC>>
+Keep == UNCHANGED <<reg, ifs, dyn, metaC, genC>>
 
 ById(id) ==
   /\ Keep
@@ -214,20 +212,21 @@ ById(id) ==
              exp |-> IF Open(id) THEN [open |-> 1] ELSE ById1(id)]
   /\ des' = IF Open(id) THEN [open |-> 1] ELSE ById2(id)
 
-\* all resolvable ids of lo..hi with their descriptions (ids left open are skipped)
-ScanOf(f(_), lo, hi) ==
-  LET ids == {i \in lo..hi : ~Open(i) /\ f(i).present = 1}
-      RECURSIVE List(_)
-      List(s) == IF s = {} THEN <<>>
-                 ELSE LET m == CHOOSE i \in s : \A j \in s : i <= j IN
-                      <<[id |-> m, size |-> f(m).size, managed |-> f(m).managed,
-                         name |-> f(m).name, named |-> f(m).named]>> \o List(s \ {m})
-  IN List(ids)
+\* all resolvable ids of lo..hi with their descriptions, ascending (ids left open are skipped)
+Answer(tier, id) == IF tier = 1 THEN ById1(id) ELSE ById2(id)
+RECURSIVE ScanList(_, _, _, _)
+ScanList(tier, i, hi, acc) ==
+  IF i > hi THEN acc
+  ELSE LET d == Answer(tier, i) IN
+       ScanList(tier, i + 1, hi,
+                IF ~Open(i) /\ d.present = 1
+                THEN Append(acc, [id |-> i, size |-> d.size, managed |-> d.managed, name |-> d.name, ntype |-> d.ntype])
+                ELSE acc)
 Scan(lo, hi) ==
   /\ Keep
   /\ obs' = [a |-> "scan", arg |-> [lo |-> lo, hi |-> hi], legal |-> TRUE,
-             exp |-> [list |-> ScanOf(ById1, lo, hi)]]
-  /\ des' = [list |-> ScanOf(ById2, lo, hi)]
+             exp |-> [list |-> ScanList(1, lo, hi, <<>>)]]
+  /\ des' = [list |-> ScanList(2, lo, hi, <<>>)]
 
 ByName(text, len) ==
   /\ Keep
@@ -250,7 +249,7 @@ BuiltinReg ==
      ELSE Desc("iface", BuiltinIf[id - IfBase + 1], PtrSize, 0)]
 
 Init ==
-  /\ reg = BuiltinReg /\ handed = <<>>
+  /\ reg = BuiltinReg
   /\ ifs = <<>> /\ dyn = <<>> /\ metaC = << <<"metatype">> >> /\ genC = << <<>> >>
   /\ obs = [a |-> "boot", arg |-> [x |-> 0], legal |-> TRUE, exp |-> [x |-> 0]]
   /\ des = [x |-> 0]
@@ -264,7 +263,7 @@ Next ==
   \/ \E id \in Probe : ById(id)
   \/ \E n \in Names \cup {"log", "loggerx", "abcdx"}, len \in {-1, 0, 3, 4, 6, 9} : ByName(n, len)
   \/ \E n \in Names \cup {"log", "out"}, sep \in {0, 1} : AliasId(n, 1, sep, "sym")
-  \/ Scan(0, GenBase + GenCap + 2)
+  \/ Scan(IfBase, MetaBase + MetaCap - 1) \/ Scan(GenBase, GenBase + GenCap - 1)
 
 Spec == Init /\ [][Next]_vars
 
@@ -281,8 +280,9 @@ Refines == RegOfTables = reg                       \* the tables implement the m
 ChunksDense == /\ \A k \in 1..(Len(metaC) - 1) : Len(metaC[k]) = Chunk
                /\ \A k \in 1..(Len(genC) - 1) : Len(genC[k]) = Chunk
 
-\* identifiers handed out are pairwise different and lie in the range of their kind
-Unique  == \A i, j \in DOMAIN handed : i # j => handed[i] # handed[j]
+\* identifiers lie in the range of their kind.  That they are pairwise different
+\* for the life of the process follows from Legal (a registration returns an id
+\* outside DOMAIN reg) and Stable (DOMAIN reg never loses an id).
 InRange == \A id \in DOMAIN reg :
              id \in (CASE reg[id].kind = "iface" -> IfRange [] reg[id].kind = "dyn" -> DynRange
                        [] reg[id].kind = "meta" -> MetaRange [] reg[id].kind = "gen" -> GenRange)
@@ -297,5 +297,7 @@ Legal        == [][obs'.legal]_vars
 Stable       == [][\A i \in DOMAIN reg : i \in DOMAIN reg' /\ reg'[i] = reg[i]]_vars
 RefuseFrame  == [][obs'.a \in {"addbasic", "addgeneric", "addiface", "addmeta"} /\ obs'.exp.ret = "refused"
                     => reg' = reg /\ RegOfTables' = RegOfTables]_vars
+RefuseKeeps  == [][obs'.a \in {"addbasic", "addgeneric", "addiface", "addmeta"} /\ obs'.exp.ret = "refused"
+                    => reg' = reg]_vars
 DesignAgrees == [][des' = obs'.exp]_vars
 =============================================================================
